@@ -250,3 +250,182 @@ Proof.
     assert (g / a = 0) by lra. lra.
   - destruct Hc as [Hc|Hc]; [lra|]. exfalso. apply H. rewrite Hc. unfold Rdiv. lra.
 Qed.
+
+(* ====================================================================================== *)
+(*  whole passes and the iteration loop                                                   *)
+(* ====================================================================================== *)
+Fixpoint iterl {A} (m : nat) (f : A -> A) (x : A) : A := match m with O => x | S k => iterl k f (f x) end.
+
+Lemma fold_step_e_fst {F} (Op : fops F) UtM UtU n o ks : forall st,
+  fst (fold_left (hals_step_e Op UtM UtU n o) ks st) = fold_left (hals_step Op UtM UtU n o) ks (fst st).
+Proof. induction ks; simpl; intros st; [reflexivity|]. now rewrite IHks. Qed.
+Lemma hals_pass_e_fst {F} (Op : fops F) UtM UtU n o V : fst (hals_pass_e Op UtM UtU n o V) = hals_pass Op UtM UtU n o V.
+Proof. unfold hals_pass_e, hals_pass. now rewrite fold_step_e_fst. Qed.
+
+(* whatever the tolerance and the budget, the loop returns some iterate of the pass *)
+Lemma hals_loop_iter {F} (Op : fops F) UtM UtU n o tol fuel : forall first err0 V,
+  exists m, (m <= fuel)%nat /\ hals_loop Op UtM UtU n o tol fuel first err0 V = iterl m (hals_pass Op UtM UtU n o) V.
+Proof.
+  induction fuel as [|f IH]; intros first err0 V; [exists 0%nat; split; [lia | reflexivity]|].
+  cbn [hals_loop]. cbv zeta. rewrite hals_pass_e_fst.
+  destruct (fltb _ _ _).
+  - exists 1%nat. split; [lia | reflexivity].
+  - destruct (IH false (if first then snd (hals_pass_e Op UtM UtU n o V) else err0) (hals_pass Op UtM UtU n o V)) as (m & Hm & E).
+    exists (S m). split; [lia | exact E].
+Qed.
+
+Section HalsTop.
+Variables (UtM UtU : mat) (r n : nat) (o : @hopts R).
+Hypothesis WG : wfm r r UtU.
+Hypothesis WB : wfm r n UtM.
+Hypothesis NZ : h_nz o = false.
+Notation pass := (hals_pass Rops UtM UtU n o).
+Notation G := (Gf UtU).
+Notation eps := (h_eps o).
+Definition feasible (V : mat) : Prop := forall i j, (i < r)%nat -> (j < n)%nat -> eps <= Mget V i j.
+
+Lemma pass_unfold V : pass V = fold_left (hals_step Rops UtM UtU n o) (seq 0 r) V.
+Proof. unfold hals_pass. destruct WB as [-> _]. reflexivity. Qed.
+Lemma in_seq_lt k : In k (seq 0 r) -> (k < r)%nat.
+Proof. rewrite in_seq. lia. Qed.
+
+Lemma pass_wfm V : wfm r n V -> wfm r n (pass V).
+Proof. intros W. rewrite pass_unfold. now apply fold_wfm. Qed.
+
+(* (i) *)
+Theorem pass_ge_eps V i j : wfm r n V -> (i < r)%nat -> (j < n)%nat ->
+  (G i i <> 0 \/ (forall j', (j' < n)%nat -> eps <= Mget V i j')) -> eps <= Mget (pass V) i j.
+Proof.
+  intros W Hi Hj H. rewrite pass_unfold.
+  assert (D : rowge n o V i \/ (In i (seq 0 r) /\ G i i <> 0)).
+  { destruct H as [H|H]; [right; split; [apply in_seq; lia | exact H] | left; exact H]. }
+  eapply fold_ge; eauto using in_seq_lt.
+Qed.
+Lemma pass_feasible V : wfm r n V -> feasible V -> feasible (pass V).
+Proof. intros W H i j Hi Hj. apply pass_ge_eps; [exact W | exact Hi | exact Hj | right; intros; now apply H]. Qed.
+Lemma iterl_feasible m : forall V, wfm r n V -> feasible V -> feasible (iterl m pass V) /\ wfm r n (iterl m pass V).
+Proof. induction m; simpl; intros V W H; [tauto|]. apply IHm; [now apply pass_wfm | now apply pass_feasible]. Qed.
+Theorem iterates_ge_eps m V : wfm r n V -> feasible V -> feasible (iterl m pass V).
+Proof. intros W H. now apply iterl_feasible. Qed.
+Theorem iterates_ge_eps_any_start m V : wfm r n V -> (forall k, (k < r)%nat -> G k k <> 0) ->
+  feasible (iterl (S m) pass V).
+Proof.
+  intros W HG. cbn [iterl]. apply iterl_feasible; [now apply pass_wfm|].
+  intros i j Hi Hj. apply pass_ge_eps; [exact W | exact Hi | exact Hj | left; now apply HG].
+Qed.
+Theorem loop_ge_eps tol fuel V : wfm r n V -> feasible V ->
+  feasible (hals_loop Rops UtM UtU n o tol fuel true 0 V).
+Proof. intros W H. destruct (hals_loop_iter Rops UtM UtU n o tol fuel true 0 V) as (m & _ & ->). now apply iterates_ge_eps. Qed.
+
+(* (ii) *)
+Section Mono.
+Hypothesis Gsym : forall i j, G i j = G j i.
+Hypothesis Hden : forall k, (k < r)%nat -> G k k <> 0 -> 0 < G k k + 2 * l2of o.
+Notation obj j := (qp_f r G (bf UtM j) (l1of o) (l2of o)).
+Theorem pass_monotone V j : wfm r n V -> feasible V -> (j < n)%nat ->
+  obj j (colf (pass V) j) <= obj j (colf V j).
+Proof.
+  intros W H Hj. rewrite pass_unfold.
+  eapply fold_mono; eauto using in_seq_lt.
+  intros i Hi j' Hj'. now apply H.
+Qed.
+Theorem iterates_monotone m : forall V j, wfm r n V -> feasible V -> (j < n)%nat ->
+  obj j (colf (iterl m pass V) j) <= obj j (colf V j).
+Proof.
+  induction m; simpl; intros V j W H Hj; [lra|].
+  eapply Rle_trans; [apply IHm; [now apply pass_wfm | now apply pass_feasible | exact Hj] | now apply pass_monotone].
+Qed.
+Theorem loop_monotone tol fuel V j : wfm r n V -> feasible V -> (j < n)%nat ->
+  obj j (colf (hals_loop Rops UtM UtU n o tol fuel true 0 V) j) <= obj j (colf V j).
+Proof. intros W H Hj. destruct (hals_loop_iter Rops UtM UtU n o tol fuel true 0 V) as (m & _ & ->). now apply iterates_monotone. Qed.
+End Mono.
+
+(* (iii) fixed point of a pass => KKT at the bound eps, for every column, l1 and ridge included *)
+Theorem fixed_point_kkt V : wfm r n V -> (forall k, (k < r)%nat -> G k k <> 0 /\ 0 < G k k + 2 * l2of o) ->
+  pass V = V ->
+  forall k j, (k < r)%nat -> (j < n)%nat ->
+    let g := qp_grad r G (bf UtM j) (l1of o) (l2of o) (colf V j) k in
+    eps <= Mget V k j /\ 0 <= g /\ (Mget V k j - eps) * g = 0.
+Proof.
+  intros W HG Hfix k j Hk Hj. cbv zeta. rewrite pass_unfold in Hfix.
+  assert (Hs : hals_step Rops UtM UtU n o V k = V).
+  { eapply fold_fixed; eauto using in_seq_lt, seq_NoDup. apply in_seq; lia. }
+  destruct (HG k Hk) as [Hnz Hpos].
+  assert (E : Mget (hals_step Rops UtM UtU n o V k) k j = hals_new r G (bf UtM j) (l1of o) (l2of o) eps (colf V j) k) by (eapply step_same; eauto).
+  rewrite Hs in E.
+  symmetry in E. apply (hals_new_fixed_kkt r G (bf UtM j) (l1of o) (l2of o) eps (colf V j) k Hpos E).
+Qed.
+
+(* and conversely every KKT point is a fixed point of the pass (the characterisation is exact) *)
+Lemma kkt_step_fixed V k : wfm r n V -> (k < r)%nat -> (G k k <> 0 -> 0 < G k k + 2 * l2of o) ->
+  (forall j, (j < n)%nat -> let g := qp_grad r G (bf UtM j) (l1of o) (l2of o) (colf V j) k in
+     eps <= Mget V k j /\ 0 <= g /\ (Mget V k j - eps) * g = 0) ->
+  hals_step Rops UtM UtU n o V k = V.
+Proof.
+  intros W Hk Hpos HK. destruct (Req_dec (G k k) 0) as [E|E]; [now apply step_zero|].
+  apply (wfm_ext r n); [eapply step_wfm; eauto | exact W|]. intros i j Hi Hj.
+  destruct (Nat.eq_dec i k) as [->|Hne]; [|now apply step_other].
+  erewrite step_same; eauto.
+  destruct (HK j Hj) as (H1 & H2 & H3). 
+  transitivity (colf V j k); [|reflexivity]. apply kkt_hals_new_fixed; auto.
+Qed.
+Theorem kkt_fixed_point V : wfm r n V -> (forall k, (k < r)%nat -> G k k <> 0 -> 0 < G k k + 2 * l2of o) ->
+  (forall k j, (k < r)%nat -> (j < n)%nat ->
+    let g := qp_grad r G (bf UtM j) (l1of o) (l2of o) (colf V j) k in
+    eps <= Mget V k j /\ 0 <= g /\ (Mget V k j - eps) * g = 0) ->
+  pass V = V.
+Proof.
+  intros W Hpos HK. rewrite pass_unfold.
+  assert (H : forall ks, (forall k, In k ks -> (k < r)%nat) -> fold_left (hals_step Rops UtM UtU n o) ks V = V).
+  { induction ks as [|k ks IH]; simpl; intros Hks; [reflexivity|].
+    rewrite kkt_step_fixed; auto. intros j Hj. apply HK; auto. }
+  apply H. exact in_seq_lt.
+Qed.
+
+(* (iii)+(iv): with eps = 0 and a positive semidefinite Gram matrix a fixed point is a global minimiser
+   of every column's penalised objective over the non-negative orthant *)
+Theorem fixed_point_optimal V : wfm r n V -> eps = 0 -> 0 <= l2of o ->
+  (forall i j, G i j = G j i) -> (forall d, 0 <= quad r G d) ->
+  (forall k, (k < r)%nat -> G k k <> 0 /\ 0 < G k k + 2 * l2of o) ->
+  pass V = V ->
+  forall j z, (j < n)%nat -> (forall i, (i < r)%nat -> 0 <= z i) ->
+    qp_f r G (bf UtM j) (l1of o) (l2of o) (colf V j) <= qp_f r G (bf UtM j) (l1of o) (l2of o) z.
+Proof.
+  intros W E0 Hl2 Gsym Gpsd HG Hfix j z Hj Hz.
+  apply kkt_optimal; auto.
+  intros i Hi. pose proof (fixed_point_kkt V W HG Hfix i j Hi Hj) as H. cbv zeta in H. rewrite E0 in H.
+  unfold colf at 1 3. destruct H as (H1 & H2 & H3). rewrite Rminus_0_r in H3. auto.
+Qed.
+End HalsTop.
+
+(* ====================================================================================== *)
+(*  ADMM, n_const = None                                                                  *)
+(* ====================================================================================== *)
+Lemma mget_transpose n (A : mat) i j : (j < n)%nat -> (i < length A)%nat -> Mget (mtranspose Rops n A) j i = Mget A i j.
+Proof.
+  intros Hj Hi. unfold mtranspose. unfold mget at 1. unfold mrow. rewrite nth_map_seq by exact Hj. now apply nth_mcol.
+Qed.
+Lemma wfm_transpose r n (A : mat) : length A = r -> wfm n r (mtranspose Rops n A).
+Proof.
+  intros L. split; [unfold mtranspose; now rewrite map_length, seq_length|].
+  intros i Hi. unfold mtranspose. rewrite nth_map_seq by exact Hi. now rewrite length_mcol.
+Qed.
+
+(* contract of tl.solve(A, B): the answer S is r x m and A S = B entrywise *)
+Definition solves (r m : nat) (A B S : mat) : Prop :=
+  wfm r m S /\ forall i c, (i < r)%nat -> (c < m)%nat -> rsum r (fun k => Mget A i k * Mget S k c) = Mget B i c.
+
+Theorem admm_none_normal_equations (solve : mat -> mat -> mat) UtM UtU x dual m r it :
+  it <> 0%nat -> wfm r r UtU -> wfm m r UtM ->
+  solves r m (mtranspose Rops r UtU) (mtranspose Rops r UtM) (solve (mtranspose Rops r UtU) (mtranspose Rops r UtM)) ->
+  let x' := fst (fst (admm_none Rops solve UtM UtU x dual m r it)) in
+  wfm m r x' /\ forall c i, (c < m)%nat -> (i < r)%nat -> rsum r (fun k => Mget UtU k i * Mget x' c k) = Mget UtM c i.
+Proof.
+  intros Hit WG WB [WS HS]. destruct it as [|it]; [congruence|]. cbn [admm_none fst]. cbv zeta.
+  set (S := solve _ _) in *. split; [apply wfm_transpose; apply WS|].
+  intros c i Hc Hi. specialize (HS i c Hi Hc).
+  rewrite mget_transpose in HS by (rewrite ?(proj1 WG), ?(proj1 WS), ?(proj1 WB); assumption).
+  rewrite <- HS. apply rsum_ext. intros k Hk.
+  rewrite mget_transpose by (rewrite ?(proj1 WG), ?(proj1 WS), ?(proj1 WB); assumption).
+  rewrite mget_transpose by (rewrite ?(proj1 WG), ?(proj1 WS), ?(proj1 WB); assumption). reflexivity.
+Qed.
